@@ -1,6 +1,7 @@
 import TrionModel.Lemmas.AsmHist
 import TrionModel.Lemmas.AsmEnc
 import TrionModel.Props.C13
+import TrionModel.Props.C14Asm
 /-!
 # C13 on whole programs — every region operation `Asm.run` issues is legal
 
@@ -9,7 +10,11 @@ placeholder) about `Seg.step` on LEGAL histories (`Seg.Legal`: every operation w
 addresses `u32`, alignments positive, a rewrite only of a statement that was placed, with the length it was placed with).
 The property itself quantifies over PROGRAMS.  This file states the bridge as a theorem about the whole-pipeline model:
 
-* `run_ops_legal`: for EVERY project and EVERY finished run (`Asm.run fs main = .done o`, successful or not, any include
+* `run_trace`, `bodyStates_traced`, `refused_keeps_image` (below): the legal history tied to the states the run actually passes
+  through (after every statement of every file, after the main file, after `close_segment`, after `finalize`), with the
+  refused operations accounted for by recorded diagnostics; the model does not log its operations, so between two consecutive
+  observable states the history is existential (but compared on the WHOLE region state including the placed-statement list);
+* `run_ops_legal` (REACHABILITY only — its `ops` is related to the run through the final map alone): for EVERY project and EVERY finished run (`Asm.run fs main = .done o`, successful or not, any include
   tree, any mix of `.global/.import/.export`), the regions went through a history `ops` of `Seg` operations from the empty
   state with `Seg.Legal Seg.init ops`, no operation panicked, the region invariant holds at the end, and the output image
   is the map of the state the history ends in.  In particular every rewrite the task queues issued targeted a pending
@@ -71,6 +76,193 @@ theorem run_path {enc : Encoder} (henc : EncLen enc) (fs : Bytes → Option Byte
           exact ⟨tr1 ++ [(Seg.Op.close, o1)] ++ tr2, st'.seg, (show Path Seg.init _ _ from (p1.append pclose).append p2), rfl, rfl⟩
         all_goals cases h
     all_goals cases h
+
+/-! ## the history is tied to the states the run actually passes through
+
+`run_ops_legal` alone says that the image is LEGALLY REACHABLE (its `ops` is existential and related to the run only through
+the final map).  What the invariant proofs of C06 carry is more: every function of the model, run from a good state, ends in
+a state whose regions are reached FROM ITS OWN START STATE by a legal history (`Traced`), and the whole `Seg.State` is
+compared — including the ghost list `pending` of placed statements, so a `place` cannot be traded for an `append` — with
+every refused operation accounted for by a recorded diagnostic (none on success).  The model does not log its operations, so
+the history between two consecutive OBSERVABLE states stays existential; the theorems below fix the observable states:
+the state after every statement of a file (`bodyStates`, a function of the run), after the main file, after
+`close_segment`, after `finalize`. -/
+
+theorem refused_state_append (s : Seg.State) (d : List UInt8) (e : Seg.Diag)
+    (h : (Seg.step s (.append d)).2 = .diag e) : (Seg.step s (.append d)).1 = s := by
+  simp only [Seg.step] at h ⊢
+  cases ha : s.active with
+  | none => simp [ha]
+  | some seg =>
+    simp only [ha] at h ⊢
+    unfold Seg.Active.write at h ⊢
+    cases hr : seg.remaining with
+    | none => simp [hr] at h
+    | some rem =>
+      simp only [hr] at h ⊢
+      by_cases hfit : d.length ≤ rem
+      · simp [hfit] at h
+      · simp only [hfit, if_false]
+        cases s; simp_all
+
+theorem refused_state_place (s : Seg.State) (d : List UInt8) (e : Seg.Diag)
+    (h : (Seg.step s (.place d)).2 = .diag e) : (Seg.step s (.place d)).1 = s := by
+  simp only [Seg.step] at h ⊢
+  cases ha : s.active with
+  | none => simp [ha]
+  | some seg =>
+    simp only [ha] at h ⊢
+    unfold Seg.Active.write at h ⊢
+    cases hr : seg.remaining with
+    | none => simp [hr] at h
+    | some rem =>
+      simp only [hr] at h ⊢
+      by_cases hfit : d.length ≤ rem
+      · simp [hfit] at h
+      · simp only [hfit, if_false]
+        cases s; simp_all
+
+theorem refused_state_align (s : Seg.State) (n : Nat) (e : Seg.Diag)
+    (h : (Seg.step s (.align n)).2 = .diag e) : (Seg.step s (.align n)).1 = s := by
+  simp only [Seg.step] at h ⊢
+  cases ha : s.active with
+  | none => simp [ha]
+  | some seg =>
+    simp only [ha] at h ⊢
+    by_cases hoff : (seg.base + seg.buf.length) % n = 0
+    · simp [hoff] at h
+    · simp only [hoff, if_false] at h ⊢
+      cases hr : seg.remaining with
+      | none => simp [hr] at h
+      | some rem =>
+        simp only [hr] at h ⊢
+        by_cases hfit : n - (seg.base + seg.buf.length) % n ≤ rem
+        · simp only [hfit, if_true] at h ⊢
+          unfold Seg.Active.write at h
+          simp [hr, hfit] at h
+        · simp [hfit]
+/-- C13 (whole programs)  A refused operation changes nothing one can observe: the image (closed map and active buffer) and
+the list of placed statements are as before.  (An append / place / align that does not fit leaves the whole state as it
+was; `.addr` onto an occupied address does close the previous region first, as `change_segment` does — the image is the
+same; `close` and a legal `rewrite` are never refused.) -/
+theorem refused_keeps_image (s : Seg.State) (op : Seg.Op) (inv : Seg.Inv s) (wf : Seg.Op.wf s op) (e : Seg.Diag)
+    (h : (Seg.step s op).2 = .diag e) : Seg.image (Seg.step s op).1 = Seg.image s ∧ (Seg.step s op).1.pending = s.pending := by
+  cases op with
+  | select a =>
+    obtain ⟨_, h2, h3, _⟩ := Seg.select_spec inv a wf
+    exact ⟨h2, h3⟩
+  | close =>
+    have := (Seg.close_spec inv).1
+    have e' : (Seg.step s .close).2 = (Seg.closeSegment s).2 := rfl
+    rw [e', this] at h; cases h
+  | rewrite addr d =>
+    have := (Seg.rewrite_spec inv addr d wf).1
+    have e' : (Seg.step s (.rewrite addr d)).2 = (Seg.rewrite s addr d).2 := rfl
+    rw [e', this] at h; cases h
+  | append d => rw [refused_state_append s d e h]; exact ⟨rfl, rfl⟩
+  | place d => rw [refused_state_place s d e h]; exact ⟨rfl, rfl⟩
+  | align n => rw [refused_state_align s n e h]; exact ⟨rfl, rfl⟩
+
+/-- C13 (whole programs)  The states a file passes through between its statements are linked by legal histories: for ANY file
+activation (main file or included, any depth) started in a good state, each two consecutive entries of `bodyStates` — the
+state before a statement and the state after it, whatever the statement did, a complete `.include` with everything the
+included tree does included — are related by `Traced`: a legal history from the regions of the first to the regions of the
+second (whole `Seg.State`), whose refused operations are covered by newly recorded diagnostics. -/
+theorem bodyStates_traced_from {enc : Encoder} (henc : EncLen enc) {inc : Inc} (hinc : IncOk inc) {env : Env}
+    (hb : env.paths.isEmpty = false) (fs : Bytes → Option Bytes) :
+    ∀ (els : List Element) (st : St), Good true st → ∀ b ∈ bodyStates fs enc inc env els st, Traced st b := by
+  intro els
+  induction els with
+  | nil => intro st _ b hb'; simp only [bodyStates, List.mem_singleton] at hb'; subst hb'; exact Traced.refl _
+  | cons el els ih =>
+    intro st g b hb'
+    have safe := statement_safe henc hinc g hb fs el
+    simp only [bodyStates, List.mem_cons] at hb'
+    rcases hb' with rfl | hb'
+    · exact Traced.refl _
+    · cases hs : statement fs enc inc env st el with
+      | stop r => rw [hs] at hb'; cases hb'
+      | ok q =>
+        obtain ⟨st1, r⟩ := q
+        obtain ⟨g1, e1⟩ := safe.2 _ _ hs
+        rw [hs] at hb'
+        cases r with
+        | ok => exact e1.2.2.trans (ih st1 g1 b hb')
+        | err lv => simp only [List.mem_singleton] at hb'; subst hb'; exact e1.2.2
+
+theorem bodyStates_traced {enc : Encoder} (henc : EncLen enc) {inc : Inc} (hinc : IncOk inc) {env : Env}
+    (hb : env.paths.isEmpty = false) (fs : Bytes → Option Bytes) :
+    ∀ (els : List Element) (st : St), Good true st → List.Pairwise Traced (bodyStates fs enc inc env els st) := by
+  intro els
+  induction els with
+  | nil => intro st _; simp [bodyStates]
+  | cons el els ih =>
+    intro st g
+    have hfrom := bodyStates_traced_from henc hinc hb fs (el :: els) st g
+    simp only [bodyStates] at hfrom ⊢
+    refine List.Pairwise.cons (fun b hb' => hfrom b (List.mem_cons_of_mem _ hb')) ?_
+    have safe := statement_safe henc hinc g hb fs el
+    cases hs : statement fs enc inc env st el with
+    | stop r => simp
+    | ok q =>
+      obtain ⟨st1, r⟩ := q
+      obtain ⟨g1, _⟩ := safe.2 _ _ hs
+      cases r with
+      | ok => exact ih st1 g1
+      | err lv => simp
+
+/-- C13 (whole programs)  **`run_trace`**: the history of a finished run, tied to the model's own intermediate states.  There are
+the state `st` in which `Context::assemble` of the main file returned, a legal history `tr1` from the empty regions to
+`st.seg` (whole state) whose refused operations number at most the diagnostics recorded; `close_segment` succeeded giving
+`s1`; `finalize` ended in `st'` reached from `s1` by a legal history `tr2` with the same accounting; and the outcome `o` is
+read off `st'`.  On a successful run NO operation of `tr1`, `tr2` was refused (`diags = 0`). -/
+theorem run_trace (fs : Bytes → Option Bytes) (main data : Bytes) (hfs : fs main = some data) (o : Outcome)
+    (h : run fs main = .done o) :
+    ∃ (st st' : St) (res : Res) (fin : Bool) (s1 : Seg.State) (tr1 tr2 : List (Seg.Op × Seg.Out)),
+      assembleFile fs encoder maxDepth Env.init St.init data main = .ok (st, res) ∧
+      Path Seg.init tr1 st.seg ∧ diags tr1 ≤ st.errors.length ∧
+      Seg.closeSegment st.seg = (s1, .ok) ∧
+      finalize encoder Env.init { st with seg := s1 } = .ok (st', fin) ∧
+      Path s1 tr2 st'.seg ∧ st.errors.length + diags tr2 ≤ st'.errors.length ∧
+      o = ⟨res = .ok, none, fin, st'.errors.reverse, st'.seg.map⟩ ∧
+      (o.success = true → diags tr1 = 0 ∧ diags tr2 = 0) := by
+  have henc := encoder_len
+  unfold run runWith at h
+  rw [hfs] at h
+  simp only at h
+  have af := assembleFile_safe henc fs maxDepth false Env.init St.init data main good_init
+  cases ha : assembleFile fs encoder maxDepth Env.init St.init data main with
+  | stop r => rw [ha] at h; cases r <;> cases h
+  | ok q =>
+    obtain ⟨st, res⟩ := q
+    rw [ha] at h
+    simp only at h
+    obtain ⟨g, e⟩ := af.2 _ _ ha
+    obtain ⟨tr1, p1, c1⟩ := e.2.2
+    have hcs := Seg.close_spec g.inv
+    cases hcl : Seg.closeSegment st.seg with
+    | mk s1 o1 =>
+      rw [hcl] at hcs h
+      simp only at hcs
+      have ho1 : o1 = .ok := hcs.1
+      subst ho1
+      simp only at h
+      have g' : Good false { st with seg := s1 } := good_setSeg g hcs.2.1 (by rw [hcs.2.2.2.2]; exact fun _ x => x)
+      cases hf : finalize encoder Env.init { st with seg := s1 } with
+      | stop r => rw [hf] at h; cases r <;> cases h
+      | ok z =>
+        obtain ⟨st', fin⟩ := z
+        rw [hf] at h
+        simp only [Result.done.injEq] at h
+        obtain ⟨tr2, p2, c2⟩ := finalize_traced henc g' hf
+        have c1' : diags tr1 ≤ st.errors.length := by simpa [St.init] using c1
+        refine ⟨st, st', res, fin, s1, tr1, tr2, rfl, p1, c1', hcl, hf, p2, c2, h.symm, fun hs => ?_⟩
+        subst h
+        have hfin : fin = true := by simpa [Outcome.success] using hs
+        have herr : st'.errors = [] := (finalize_grew hf).2.mp hfin
+        rw [herr] at c2
+        simp only [List.length_nil] at c2
+        omega
 
 /-- C13 (whole programs)  **`run_ops_legal`**: every region operation a finished run of the whole pipeline issued was legal.
 There is a history `ops` with `Seg.Legal Seg.init ops` (in particular: every `.rewrite addr d` in it found `(addr, |d|)` among
